@@ -49,7 +49,9 @@ RULE = ("one case = one family (fast_in / fast_flow / opp / pkone) + a generated
 PROBES = ["family_fast_in", "family_fast_flow", "family_opp", "family_pkone",
           "split_inside_frame", "single_byte_reads", "coalesced_frames", "noise_inside_frame", "garbage_between_frames",
           "malformed_line_seen", "may_line_seen", "resync_after_noise", "diff_replay", "nc_switch_report",
-          "duplicate_report", "unconfigured_switch_report",
+          "duplicate_report", "unconfigured_switch_report", "lenient_char_in_number_field",
+          "sa_report_applied", "sa_report_repeat", "sa_report_queried", "sa_repeats_previous_snapshot_after_switch_events",
+          "malformed_sa_report",
           "opp_bad_crc_window", "opp_matrix_change", "opp_payload_looks_like_header", "opp_lost_poll_reply",
           "flow_confirmed_cmd", "flow_write_queued_behind_confirm", "flow_dup_confirmation", "flow_lost_response",
           "flow_reset", "flow_boot_id_lost", "flow_latency_over_100ms"]
@@ -110,18 +112,24 @@ OPP_SW = {(0x20, "inp", 0): "a0", (0x20, "inp", 1): "a1", (0x20, "inp", 2): "a2_
           (0x21, "mtx", 0): "m32", (0x21, "mtx", 16): "m48", (0x21, "mtx", 31): "m63_nc", (0x21, "mtx", 63): "m95"}
 OPP_NC = {"a2_nc", "b7_nc", "m63_nc"}
 
-PK_SW = {(0, 1): "p01", (0, 2): "p02", (0, 7): "p07", (0, 22): "p0_22", (0, 26): "p0_26_nc", (0, 35): "p0_35",
-         (1, 1): "p11", (1, 5): "p15", (1, 12): "p1_12_nc", (1, 30): "p1_30"}
+PK_SW = {(0, 1): "p01", (0, 2): "p02", (0, 3): "p03", (0, 5): "p05", (0, 6): "p06", (0, 7): "p07", (0, 22): "p0_22",
+         (0, 26): "p0_26_nc", (0, 35): "p0_35",
+         (1, 1): "p11", (1, 2): "p12", (1, 3): "p13", (1, 5): "p15", (1, 10): "p1_10", (1, 12): "p1_12_nc",
+         (1, 30): "p1_30"}
 PK_NC = {"p0_26_nc", "p1_12_nc"}
-PK_OTHER = [(0, 3), (1, 35), (0, 36), (2, 1), (7, 99), (0, 0)]
+PK_OTHER = [(0, 4), (1, 35), (0, 36), (2, 1), (7, 99), (0, 0)]
 
 GAPS = [0.0, 0.0, 0.0, 0.0005, 0.001, 0.003, 0.01, 0.05, 0.3]
 LAT = {"zero": [0.0], "small": [0.0, 0.0, 0.0002, 0.001, 0.003],
        "mixed": [0.0, 0.0005, 0.002, 0.01, 0.05, 0.2]}
 
+# characters that lenient number parsers accept inside / around a number (int(' 1'), int('+3'), int('1_0'), int('4\t'),
+# bytes.fromhex('0 1')): a decoder that validates with int()/fromhex() instead of the protocol's alphabet takes a frame
+# damaged into one of these for a report about a different switch
+LENIENT = [0x20, 0x20, 0x09, 0x0a, 0x0d, 0x0b, 0x2b, 0x2b, 0x2d, 0x5f]
 NOISE_BYTES = {
-    "fast": list(b"\r\r-/L:0123456789ABCDEFabcdefxG _+SWP,") + [0x00, 0x0a, 0x7f, 0x80, 0xc3, 0xe2, 0xff],
-    "pkone": list(b"EEPSW0123456789 +-AXN") + [0x00, 0x0d, 0x7f, 0x80, 0xc3, 0xff],
+    "fast": list(b"\r\r-/L:0123456789ABCDEFabcdefxG _+SWP,\t") + [0x00, 0x0a, 0x7f, 0x80, 0xc3, 0xe2, 0xff],
+    "pkone": list(b"EEPSW0123456789 +-AXN_\t\n") + [0x00, 0x0d, 0x7f, 0x80, 0xc3, 0xff],
     "opp": [0x20, 0x21, 0x22, 0x3f, 0x08, 0x19, 0x0d, 0x02, 0xff, 0xff, 0xf0, 0x00, 0x01, 0x80, 0x55, 0xaa, 0x07],
 }
 
@@ -131,10 +139,15 @@ NOISE_BYTES = {
 
 
 def _gen_noise(ch, proto):
-    kind = ch.weighted("nz.kind", [("flip", 3), ("replace", 2), ("insert", 2), ("delete", 2), ("truncate", 1)])
+    kinds = [("flip", 3), ("replace", 2), ("insert", 2), ("delete", 2), ("truncate", 1)]
+    if proto != "opp":
+        kinds.append(("lenient", 3))
+    kind = ch.weighted("nz.kind", kinds)
     nz = {"kind": kind, "pos": ch.choice("nz.pos", 64)}
     if kind == "flip":
         nz["bit"] = ch.choice("nz.bit", 8)
+    elif kind == "lenient":
+        nz["byte"] = ch.pick("nz.lenient", LENIENT)
     elif kind == "replace":
         nz["byte"] = ch.pick("nz.byte", NOISE_BYTES[proto])
     elif kind == "insert":
@@ -178,6 +191,15 @@ def _plan_fast_in(ch):
             num = ch.pick("num", nums) if not ch.flag("other", 0.1) else ch.pick("num_other", FAST_OTHER)
             frames.append([num, 1 if ch.flag("st", 0.5) else 0])
         op = {"dt": ch.pick("dt", GAPS), "frames": frames}
+        if ch.flag("sa", 0.2):
+            # a full switch report instead of single reports.  "repeat": the very snapshot of the previous full report
+            # (the switches moved back, their single reports never made it) - "current": what the single reports said -
+            # "random": many switches moved at once.  "query": MPF asks for it (get_hw_switch_states(query_hw=True)).
+            op["frames"] = []
+            op["sa"] = {"mode": ch.weighted("sa.mode", [("repeat", 3), ("current", 2), ("random", 2)]),
+                        "via": ch.weighted("sa.via", [("push", 3), ("query", 1)])}
+            if op["sa"]["mode"] == "random":
+                op["sa"]["closed"] = [n for n in nums + [0x06, 0x30, 0x67] if ch.flag("sa.bit", 0.4)]
         if p_noise and ch.flag("noisy", p_noise):
             op["noise"] = _gen_noise(ch, "fast")
         if p_garb and ch.flag("garb", p_garb):
@@ -599,7 +621,30 @@ def _exec_fast_in(ctx, plan):
 
 def _fast_emit(ctx, sim, board, op, noisy):
     from checks import _c14_boards as B
+    # the board's physical switches follow what it reports (raw bit = closed; an NC switch is active when open)
+    for n, s in op["frames"]:
+        if n < 112:
+            board.closed[n] = s ^ (1 if n in FAST_NC else 0)
     data = b"".join(B.FastNeuronBoard.switch_frame(n, s) for n, s in op["frames"])
+    sa = op.get("sa")
+    if sa:
+        if sa["mode"] == "repeat":
+            board.closed = list(board.last_snapshot)
+        elif sa["mode"] == "random":
+            board.closed = [1 if i in sa["closed"] else 0 for i in range(112)]
+        board.last_snapshot = list(board.closed)
+        ctx.probe("sa_report_" + sa["mode"])
+        if sa["via"] == "query":
+            ctx.log("sa_query", t=sim.now)
+            ctx.probe("sa_report_queried")
+            fut = asyncio.ensure_future(sim.machine.hardware_platforms["fast"].get_hw_switch_states(query_hw=True),
+                                        loop=sim.loop)
+            board.queries.append(fut)
+            data = b""
+        else:
+            data = board.sa_frame()
+    if not data and "garbage" not in op:
+        return
     if "garbage" in op:
         board.line.send(bytes(op["garbage"]), 0.0)
         ctx.fault("garbage")
@@ -611,9 +656,12 @@ def _fast_emit(ctx, sim, board, op, noisy):
         if wire != data:
             ctx.fault("noise_" + nz["kind"])
             ctx.probe("noise_inside_frame")
+            if nz["kind"] == "lenient":
+                ctx.probe("lenient_char_in_number_field")
             noisy[0] = True
     ctx.log("emit", data, nz, t=sim.now)
-    board.line.send(data, 0.0, nz)
+    if data:
+        board.line.send(data, 0.0, nz)
 
 
 def _fast_judge(ctx, plan, stream, calls, watch, init, noisy, tag):
@@ -621,11 +669,71 @@ def _fast_judge(ctx, plan, stream, calls, watch, init, noisy, tag):
     from checks import _c14_boards as B
     lines, rest = B.fast_reference_lines(stream)
     sw_calls = [c for c in calls if c["hdr"] in ("-L:", "/L:")]
+    sa_calls = [c for c in calls if c["hdr"] == "SA:"]
     model = dict(init)
     qi = 0
+    si = 0
     counts = {"must": 0, "may": 0, "mustnot": 0}
     seen_noise = False
+    events_since_sa = 0
+    last_sa_bits = None
     for line in lines:
+        # -- full switch reports -----------------------------------------------------------------------------
+        sa_cls, bits = B.fast_classify_sa(line)
+        if sa_cls == "may":
+            # noise (or a single report that lost its line end) glued in front of a full report: MPF sees another
+            # header; the line is judged below like any other line that is not a well-formed single report
+            ctx.probe("may_line_seen")
+            seen_noise = True
+        elif sa_cls is not None:
+            try:
+                text = line.decode("utf-8")
+            except UnicodeDecodeError:
+                text = None
+            handed = None
+            if si < len(sa_calls) and text is not None and "SA:" + sa_calls[si]["msg"] == text:
+                handed = sa_calls[si]
+                si += 1
+            if sa_cls == "must":
+                if seen_noise:
+                    ctx.probe("resync_after_noise")
+                if handed is None:
+                    ctx.violation("valid_frame_not_decoded", "fast:SA", "well-formed full switch report %r in the "
+                                  "delivered stream was not handed to the SA: processor" % (line,))
+                    continue
+                new = {name: bits[num] ^ (1 if num in FAST_NC else 0) for num, name in FAST_SW.items()}
+                want = sorted((k, new[k]) for k in new if new[k] != model[k])
+                ctx.probe("sa_report_applied")
+                if last_sa_bits == bits and events_since_sa and want:
+                    ctx.probe("sa_repeats_previous_snapshot_after_switch_events")
+                if sorted(handed["changes"]) != want:
+                    ctx.violation("last_report", "fast:SA", "after the well-formed full switch report %r MPF's switch "
+                                  "states must equal it: it caused %r, expected %r (same snapshot as the previous SA: "
+                                  "%s, %d single reports in between)" % (line, sorted(handed["changes"]), want,
+                                                                      last_sa_bits == bits, events_since_sa))
+                model = new
+                last_sa_bits = bits
+                events_since_sa = 0
+            else:
+                ctx.probe("malformed_line_seen")
+                ctx.probe("malformed_sa_report")
+                seen_noise = True
+                glued = None
+                if bits is not None:
+                    ctx.probe("may_line_seen")
+                    tmp = {name: bits[num] ^ (1 if num in FAST_NC else 0) for num, name in FAST_SW.items()}
+                    glued = sorted((k, tmp[k]) for k in tmp if tmp[k] != model[k])
+                if handed is not None and handed["changes"] and sorted(handed["changes"]) == glued:
+                    model = tmp          # relaxation "may": the report glued to the end of the damaged line was decoded
+                    last_sa_bits, events_since_sa = bits, 0
+                elif handed is not None and handed["changes"]:
+                    ctx.violation("malformed_changed_switch", "fast:SA:%s" % _shape(line[3:]),
+                                  "line %r is not a well-formed full switch report (SA:0E,<28 hex digits>) but changed %r"
+                                  % (line, handed["changes"]))
+                    for nm, s in handed["changes"]:
+                        model[nm] = s
+            continue
+        # -- single switch reports ---------------------------------------------------------------------------
         cls, num, st = B.fast_classify(line)
         counts[cls] += 1
         try:
@@ -660,6 +768,7 @@ def _fast_judge(ctx, plan, stream, calls, watch, init, noisy, tag):
                 ctx.violation("wrong_switch_changed", "fast", "report %r (switch %s was %d) caused %r, expected %r"
                               % (line, name, model[name], handed["changes"], want))
             model[name] = st
+            events_since_sa += 1
         elif cls == "may":
             ctx.probe("may_line_seen")
             seen_noise = True
@@ -681,6 +790,9 @@ def _fast_judge(ctx, plan, stream, calls, watch, init, noisy, tag):
     if qi != len(sw_calls):
         ctx.violation("phantom_message", "fast", "switch message %r handed to a processor does not correspond to a line "
                       "of the delivered stream" % (sw_calls[qi]["hdr"] + sw_calls[qi]["msg"],))
+    if si != len(sa_calls):
+        ctx.violation("phantom_message", "fast:SA", "SA: message %r handed to the processor does not correspond to a "
+                      "line of the delivered stream" % (sa_calls[si]["msg"],))
     final = watch.states()
     for num, st in plan["tail"]:
         model[FAST_SW[num]] = st
@@ -1072,6 +1184,8 @@ def _pk_emit(ctx, sim, board, op, noisy):
     if nz and B.apply_noise(data, nz) != data:
         ctx.fault("noise_" + nz["kind"])
         ctx.probe("noise_inside_frame")
+        if nz["kind"] == "lenient":
+            ctx.probe("lenient_char_in_number_field")
         noisy[0] = True
     ctx.log("emit", data, nz, t=sim.now)
     board.line.send(data, 0.0, nz)
